@@ -147,7 +147,7 @@ def validate_row(model, row, state, rowno, rollback=False, sticky=False):
     return (ACCEPTED,)
 
 
-def expected_run(model, raw_rows, validate_until=None, rollback=False, sticky=False):
+def expected_run(model, raw_rows, validate_until=None, rollback=False, sticky=False, stop_at_first_rejection=False):
     """Expected 'yield'-mode result of reading raw_rows: list of items, one per data row after the
     header: ("row", row) | ("error", rowno, verdict) ; plus the end-of-data verdict and counters.
     Returns None when some row is unjudged."""
@@ -170,4 +170,6 @@ def expected_run(model, raw_rows, validate_until=None, rollback=False, sticky=Fa
         else:
             out.append(("error", rowno, verdict))
             rejected += 1
+            if stop_at_first_rejection:
+                break  # raise mode: the state is what the checks have seen up to and including the rejected row
     return {"items": out, "end": state.end_verdict(), "accepted": accepted, "rejected": rejected, "state": state}
